@@ -134,9 +134,12 @@ func (p *Processor[K, T]) process(isNext bool) {
 
 // Processing loop.
 func (p *Processor[K, T]) processLoop() {
+	var released bool
 	defer func() {
 		// Release the channel when exiting
-		<-p.processorRunningCh
+		if !released {
+			<-p.processorRunningCh
+		}
 	}()
 
 	verifPoint("loop.start")
@@ -153,6 +156,14 @@ func (p *Processor[K, T]) processLoop() {
 		// Continue processing items until the queue is empty
 		p.lock.Lock()
 		r, ok = p.queue.Peek()
+		if !ok {
+			// Release the channel while still holding the lock: an Enqueue that
+			// comes after this point must find the loop not running and start a
+			// new one, or its item would be left in the queue with no loop
+			// serving it
+			<-p.processorRunningCh
+			released = true
+		}
 		p.lock.Unlock()
 		if !ok {
 			verifPoint("loop.empty")
